@@ -808,3 +808,104 @@ Example SystemSeq_nonvacuous :
   map (fun r => system_case os false m 40003 (B"127.0.0.1") (B"curl x") (rq_env r) (rq_sys r)) rs5.
 Proof. vm_compute. split; reflexivity. Qed.
 End SystemSeq_examples.
+
+(* ============================================================================================ *)
+(* V. The code since /repo c9df24c (finding F3d of C04, found by the System leg)                  *)
+(* ============================================================================================ *)
+(* Model/SystemWire.v.  Relay.v / Limit.v / Trailers.v / LimitSeq.v -- hence parts I-IV -- are stated over
+   Headers.proxy_forward, the forwarding function before the repair "do not sign a transfer-encoding
+   header that is not sent".  [system_step_c9] / [serve_conn_c9] are System.v / SystemSeq.v with the written
+   request recomputed by Headers.proxy_forward_c9 (Canon.hyper_wire: the transfer-encoding header of an
+   EMPTY collected body is dropped before signing); everything else is unchanged.  These are what the
+   end-to-end leg evaluates.  The theorems below carry parts I-IV over to the repaired code. *)
+From GPA.Model Require Import SystemWire.
+From GPA.Proofs Require Import SystemWireProofs.
+From GPA Require Import HeadersWireProofs.
+
+(* the repaired system IS System.v on every request that is exempt or has a non-empty body ... *)
+Theorem SystemC9_same_unless_empty_signed : forall authz mac E C q,
+  empty_signed q = false -> system_step_c9 authz mac E C q = system_step_gen authz mac E C q.
+Proof. exact c9_same_unless_empty_signed. Qed.
+Print Assumptions SystemC9_same_unless_empty_signed.
+
+(* ... and it never writes where System.v does not: every "nothing is written" statement of parts III and
+   IV (root-only, self, forbidden, over the limit, gate, unattributed) holds for it verbatim *)
+Theorem SystemC9_no_new_writes : forall authz mac E C q,
+  sy_upstream (system_step_gen authz mac E C q) = [] ->
+  system_step_c9 authz mac E C q = system_step_gen authz mac E C q.
+Proof. exact c9_no_new_writes. Qed.
+Print Assumptions SystemC9_no_new_writes.
+
+(* a write of the repaired code implies a write of System.v to the same destination (so System_mediation's
+   facts hold for it), with the same client answer and effects; it is the only write *)
+Theorem SystemC9_write_implies_system_write : forall authz mac E C q ip port o9,
+  In (ip, port, o9) (sy_upstream (system_step_c9 authz mac E C q)) ->
+  exists u out,
+    fst (handled authz E C q) = Relay u /\
+    In (ip, port, out) (sy_upstream (system_step_gen authz mac E C q)) /\
+    forward_c9 mac u E q = Forwarded o9 /\
+    sy_upstream (system_step_c9 authz mac E C q) = [(ip, port, o9)] /\
+    sy_client (system_step_c9 authz mac E C q) = sy_client (system_step_gen authz mac E C q) /\
+    sy_effects (system_step_c9 authz mac E C q) = sy_effects (system_step_gen authz mac E C q).
+Proof. exact c9_upstream_inv. Qed.
+Print Assumptions SystemC9_write_implies_system_write.
+
+(* what the host receives from the repaired code: method, target, body unchanged; exactly one claims and one
+   date header; on a signed request exactly one authorization header whose MAC is over the canonical string
+   of the head AS WRITTEN -- which, for an empty body, names no transfer-encoding header (F3d repaired) *)
+Theorem SystemC9_host_receives : forall authz mac E C q ip port o9,
+  In (ip, port, o9) (sy_upstream (system_step_c9 authz mac E C q)) ->
+  exists u,
+    fst (handled authz E C q) = Relay u /\ ip = up_ip u /\ port = up_port u /\
+    r_method o9 = q_method (sq_req q) /\ r_uri o9 = q_uri (sq_req q) /\ r_body o9 = concat (q_frames (sq_req q)) /\
+    hm_get_all claims_header (r_headers o9) = [claims_text (k_elevated (up_claims u))] /\
+    hm_get_all date_header (r_headers o9) = [se_now E] /\
+    (is_signed (key_value (se_key E)) (key_guid (se_key E)) (collected (sq_req q)) = true ->
+     exists key guid sig,
+       key_value (se_key E) = Some key /\ key_guid (se_key E) = Some guid /\
+       compute_signature mac key
+         (as_sig_input (q_method (sq_req q)) (concat (q_frames (sq_req q)))
+                       (wire_head (audit_of_upstream u) (se_now E) (collected (sq_req q))) (q_uri (sq_req q))) = Some sig /\
+       hm_get_all auth_header (r_headers o9) = [auth_value guid sig]) /\
+    (concat (q_frames (sq_req q)) = [] ->
+     hm_get_all te (wire_head (audit_of_upstream u) (se_now E) (collected (sq_req q))) = []).
+Proof. exact c9_host_receives. Qed.
+Print Assumptions SystemC9_host_receives.
+
+(* sequences: the repaired connection is SystemSeq's when no request is an empty-bodied signed one, and at
+   every position where SystemSeq writes nothing it gives SystemSeq's outcome *)
+Theorem SystemC9_sequences : forall authz mac C rs,
+  (Forall (fun r => empty_signed (rq_sys r) = false) rs ->
+   serve_conn_c9 authz mac C rs = serve_conn_gen authz mac C rs) /\
+  (forall i r, nth_error rs i = Some r -> so_upstream (serve_request_gen authz mac C r) = [] ->
+     nth_error (serve_conn_c9 authz mac C rs) i = Some (serve_request_gen authz mac C r)) /\
+  (forall i, nth_error (serve_conn_c9 authz mac C rs) i =
+             option_map (serve_request_c9 authz mac C) (nth_error rs i)).
+Proof.
+  intros authz mac C rs. split; [exact (seq_c9_same authz mac C rs)|].
+  split; [exact (seq_c9_writes_only_where_system_writes authz mac C rs)|exact (seq_c9_nth authz mac C rs)].
+Qed.
+Print Assumptions SystemC9_sequences.
+
+(* non-vacuity: the request of the false alarm -- POST /a?a=b&c=.. chunked, EMPTY body, key latched:
+   System.v (pre-repair pipeline) forwards and signs transfer-encoding, the repaired code drops it; with a
+   non-empty body, and for the exempt upload with an empty body, the two agree *)
+Module SystemC9_examples.
+  Import Coq.Strings.String.
+  Import System_examples.
+  Definition te_wire : list (bytes * bytes) := [(B"Host", B"x"); (B"Transfer-Encoding", B"chunked")].
+  Definition empty_post := req (B"POST") (B"/a") (Some (B"a=b&c=..")) te_wire [] None.
+  Definition full_post := req (B"POST") (B"/a") (Some (B"a=b&c=..")) te_wire [B"x"] None.
+  Definition empty_put := req (B"PUT") (B"/vmAgentLog") None te_wire [] None.
+  Definition te_of (res : sys_result) :=
+    flat_map (fun x => hm_get_all te (r_headers (snd x))) (sy_upstream res).
+Example SystemC9_nonvacuous :
+  empty_signed empty_post = true /\
+  te_of (system_step zero_mac E0 (conn_ 40001) empty_post) = [B"chunked"] /\
+  te_of (system_step_c9 authorize_at zero_mac E0 (conn_ 40001) empty_post) = [] /\
+  List.length (sy_upstream (system_step_c9 authorize_at zero_mac E0 (conn_ 40001) empty_post)) = 1%nat /\
+  system_step_c9 authorize_at zero_mac E0 (conn_ 40001) full_post = system_step zero_mac E0 (conn_ 40001) full_post /\
+  te_of (system_step_c9 authorize_at zero_mac E0 (conn_ 40001) full_post) = [B"chunked"] /\
+  system_step_c9 authorize_at zero_mac E0 (conn_ 40001) empty_put = system_step zero_mac E0 (conn_ 40001) empty_put.
+Proof. vm_compute. repeat split. Qed.
+End SystemC9_examples.
